@@ -88,6 +88,7 @@ func Saturated(s Script) bool {
 		return false
 	}
 	rel := 0
+	var adds []Op
 	for _, op := range s.Ops {
 		switch op.K {
 		case "R", "T", "D":
@@ -95,7 +96,20 @@ func Saturated(s Script) bool {
 			rel++
 		case "F", "FM":
 			rel += len(op.Picks)
+		case "A":
+			adds = append(adds, op) // v1: the channel of a configured priority replaced by another full one
 		default:
+			return false
+		}
+	}
+	for _, op := range adds {
+		known := false
+		for _, in := range s.Ins {
+			if in.P == op.P {
+				known = true
+			}
+		}
+		if s.Ver != 1 || !known || op.N < op.M || op.M < int(s.H)+rel+1 {
 			return false
 		}
 	}
